@@ -10,10 +10,11 @@ TRUSTED = ("Trusted: the reference MIPI-DCS decoder in spec/Controller.tla + spe
 
 # id -> (technique, level text, design ref)
 CHECKS = {
-    "C01": ("TLA+ spec (Geometry/Abstract/Controller) + TLC trace validation of real-code executions; design-level TLC model MC_Placement",
+    "C01": ("TLA+ spec (Geometry/Abstract/Controller/Driver): TLC model MC_Placement with program export, TLC trace validation of real-code executions, TLAPS lemma for all sizes",
             "Every recorded call of the real Display on every transport is replayed through the TLA+ controller model and the decoded "
             "framebuffer must equal the closed-form Place() picture after every call; small scopes are exhaustive "
-            "(all windows of all framebuffers up to 3x3 and 4x3, all 8 orientations).", "7/C01"),
+            "(all windows of all framebuffers up to 3x3 and 4x3, all 8 orientations); TLC-generated programs are replayed on "
+            "the real crate; the window/decoder/placement arithmetic is proved for all sizes with TLAPS (Lemmas.tla).", "7/C01"),
     "C02": ("TLA+ spec + TLC trace validation (boundary-value and small-scope out-of-range programs on the real Display)",
             "Every DrawTarget call with out-of-range arguments is executed on the real crate; the monitor requires Ok, the decoded "
             "framebuffer to equal the picture with the outside points dropped, no cell outside the panel window and no address "
